@@ -666,7 +666,7 @@ LAWS = [
         {"quick": 1200, "thorough": 30000}, "Euclidean point distance, symmetry, zero iff equal, inf for one infinite point; coordinates k/4, integer-typed vs float arrays", shard=400, mandatory=("int-array-vs-fractional-float",)),
     Law("dist_subspace", lambda tier: sub_case(tier), run_sub, sub_nontrivial, lambda c: [c["cfg"], "incident" if c["on"] else "generic"] + (["derived-from-a-used-object"] if c.get("derive") else []), {"quick": 2000, "thorough": 40000},
         "point-line/plane, plane-parallel line/plane, both orders, incident pairs, equal coordinate vectors of different kinds", shard=400),
-    Law("dist_polytope", lambda tier: poly_case(tier), run_poly, lambda c: True, lambda c: [c["cfg"]] + (["derived-from-a-used-object"] if c.get("derive") else []), {"quick": 700, "thorough": 12000},
+    Law("dist_polytope", lambda tier: poly_case(tier), run_poly, lambda c: True, lambda c: [c["cfg"]] + (["derived-from-a-used-object"] if c.get("derive") else []), {"quick": 1600, "thorough": 16000},
         "point-segment, point-polygon (2D boundary/outside, 3D anywhere), point-cuboid (outside/surface); Segment.length", shard=150),
     Law("dist_plane_line_collection", lambda tier: pll_case(tier), run_pll, lambda c: len(c["lines"]) > 1, lambda c: [f"n{len(c['lines'])}"] + (["radial-and-other-lines"] if len({x["radial"] for x in c["lines"]}) > 1 else []),
         {"quick": 800, "thorough": 10000}, "dist(plane, LineCollection) for lines parallel to the plane, lines through the perpendicular axis mixed with others: the distance of the parallel planes at every position", shard=200,
